@@ -1,4 +1,5 @@
 import Gv.Model.Fmt.Common
+import Gv.Model.Fmt.Utf8
 import Gv.Model.Fmt.Phylip
 /-!
 Model of `io/partition/{lexer,parser}.go` and `align/partition.go` (`NewPartitionSet`, `AddRange`)
@@ -165,5 +166,9 @@ def parse (f : Facts) (len : Nat) (bs : Seq) : Outcome PSet :=
     -- `p.unscan()`: the first token is read again by the loop
     loop f (bs.length + 3) (.ident l) bs (newPSet len)
   | _ => .error
+
+/-- `Parse(alignmentLength)` on the raw input, ALL byte strings: the lexer reads runes, compares them with ASCII constants
+only and writes them back (`Utf8.norm`); names are the written bytes, numbers go through `strconv.ParseInt` -/
+def parseBytes (f : Facts) (len : Nat) (bs : Seq) : Outcome PSet := parse f len (Utf8.norm bs)
 
 end Gv.Model.Fmt.Partition
